@@ -74,7 +74,14 @@ fn load_world(repo: &Path, work: &Path) -> World {
     add_dir(repo.join("examples/github/examples"), "github".into(), false);
     // synthetic fixtures for features the repository's fixtures only have in an arguable form:
     // deprecations with explicit reasons (fields and enum values), custom scalars, lists of lists
-    let syn: [(&str, &str, &str); 2] = [
+    let syn: [(&str, &str, &str); 3] = [
+        (
+            // type extensions, custom root names incl. subscription, several interfaces per object,
+            // descriptions (single-line and block), a deprecated field added by an extension
+            "syn_ext__q",
+            "schema { query: RootQ subscription: Sub }\n\"A described scalar with a \\\"quote\\\" and caf\u{e9}\"\nscalar Money\ntype RootQ {\n  \"\"\"\n  block description\n  over two lines\n  \"\"\"\n  me: Person\n}\nextend type RootQ { extra(n: Int = 2): [Money!] }\ninterface Named { name: String }\ninterface Aged { age: Int }\ntype Person implements Named & Aged { name: String, age: Int, pet: Pet }\ntype Pet implements Named { name: String }\nextend type Person { nick: String @deprecated(reason: \"use name\") }\ntype Sub { tick: Int }\n",
+            "query Ext { me { name age nick pet { name } } extra(n: 3) }\n",
+        ),
         (
             "syn_deprecated__q",
             "schema { query: Query }\ntype Query { currentUser: User, role: Role }\ntype User { id: ID!, name: String, oldName: String @deprecated(reason: \"Use name\"), legacy: Int @deprecated(reason: \"gone \\\"for good\\\"\") }\nenum Role { ADMIN OLD @deprecated(reason: \"x\") USER }\n",
@@ -507,6 +514,7 @@ fn execute(plan: &Value, w: &World, cfg: &Cfg, slot: usize) -> Outcome {
         "request_fp": full_requests.first().map(|r| simcore::fingerprint(&normalise_request(&r.raw))),
         "output_after": after.as_ref().map(|a| json!({"len": a.len(), "fp": simcore::fingerprint(a)})),
         "meaning": short_meaning(&built.meaning),
+        "codegen_equivalence_checked": codegen_checked,
     });
     let fingerprint = simcore::fingerprint(json!([obs["exit"], obs["stdout_fp"], obs["connections"], obs["complete_requests"], obs["request_fp"], obs["output_after"], v.iter().map(|x| x.class.clone()).collect::<Vec<_>>()]).to_string().as_bytes());
     Outcome {
